@@ -79,6 +79,25 @@ class ArmInfo:
     def calls_matching(self, *needles):
         return [(b, t) for b, t in self.calls if prim.callee_matches(t, *needles)]
 
+    def for_token(self, tok):
+        """the part of this arm that runs for the primary `tok` (rules/common.arm_blocks_for_token): an arm shared by
+        several primaries that computes a flag from its own token and branches on it later is, for each of them, only the
+        side the flag selects. The arm itself when nothing in it depends on the token."""
+        cache = self.__dict__.setdefault("_per_token", {})
+        if tok not in cache:
+            from .rules import common as C
+            try:
+                feas = C.arm_blocks_for_token(self.fn, self, tok)
+            except Exception:
+                feas = None
+            if feas is None or feas == set(self.blocks) or not feas:
+                cache[tok] = self
+            else:
+                sub = ArmInfo(self.fn, None, self.lits, self.entry, set(feas))
+                sub.__dict__["_per_token"] = {tok: sub}
+                cache[tok] = sub
+        return cache[tok]
+
     def field_writes(self, base_ty_suffix=None):
         """(field name, value Origin, bb, stmt) for projections written in the region"""
         out = []
@@ -206,5 +225,5 @@ def _split_nested(fn, prog, d, arms):
 def arm_of(arms, lit):
     for lits, a in arms.items():
         if lit in lits:
-            return a
+            return a.for_token(lit)
     return None
